@@ -130,5 +130,11 @@ Definition dispatch_c18 (fn : N) (args : list sexp) : sexp :=
   | 9, [s] => with_s s (fun s => enc_bool (is_float_lit s))
   | 10, [z] => match dec_Z z with Some z => enc_str (str_of_Z z) | None => s_badinput end
   | 11, [s] => with_s s (fun s => enc_bool (str_to_bool s))
+  | 12, [_] => enc_bool inf_nested_by_field_name
+  | 13, [hs] => match dec_list dec_str hs with
+                | Some hs => enc_list enc_str (stable_partition inf_nested_by_field_name hs)
+                | None => s_badinput
+                end
+  | 14, [sc] => with_schema sc (fun sc => enc_bool (wf_schema_full sc))
   | _, _ => s_badinput
   end.
